@@ -13,10 +13,11 @@ CONSTANTS
   Weights <- Blend
   Surs = {0, 1}
   CUs <- BaseCU
+  Rts <- NoRt
   NoDst = FALSE
   OkSubsets = FALSE
   NeedConsistent = FALSE
 INIT Init
 NEXT Next
-INVARIANTS TreeEdgeOK TreeRooted TreeMono TreeAllowed AtDone IterBound SizeBound
+INVARIANTS TreeEdgeOK TreeRooted TreeMono TreeAllowed AtDone IterBound SizeBound RtBound
 CHECK_DEADLOCK FALSE
